@@ -220,7 +220,9 @@ class Delete(AbstractCommand):
         elements = {self.owner}
         elements.update(self.owner.eAllContents())
         for element in elements:
-            rels_tuple = [(ref, element.eGet(ref))
+            # a collection is copied: delete() empties the live one
+            rels_tuple = [(ref, list(element.eGet(ref)) if ref.many
+                           else element.eGet(ref))
                           for ref in element.eClass.eAllReferences()]
             self.references[element] = rels_tuple
         self.inverse_references = {}
